@@ -67,6 +67,9 @@ func c19Gen(rng *rand.Rand, tier string, w *bufio.Writer) {
 	// records that carry client-supplied CreatedAt / UpdatedAt (year 2001): the event time is still the time of the change
 	fmt.Fprintf(w, "case %d seq\nsub 1\nsetm a x\nsetm a y\nset a z\nset b x\ndel a\nsetm a q\nreload\nset a r\n", c)
 	c++
+	// a claim through ShiftExpiredTreasures is a delete like any other: the subscriber gets its DELETED event
+	fmt.Fprintf(w, "case %d seq\nsub 1\nset a x\nsete e y\nshifte e\nset a z\n", c)
+	c++
 	fmt.Fprintf(w, "case %d drain\nsub 1\nset a x\nspawn W set b y\nspawn D del a\ngo W\ngo D\nset c z\n", c)
 	c++
 	fmt.Fprintf(w, "case %d late\nspawn A set a x\nsub 1\ngo A\n", c)
@@ -431,6 +434,23 @@ func (st *c19State) seqOp(f []string) string {
 	case "shift":
 		resp, err := gw.ShiftByKeys(ctx, &hydrapb.ShiftByKeysRequest{IslandID: 1, SwampName: st.swamp, Keys: []string{f[1]}})
 		if err != nil || resp == nil || len(resp.GetTreasures()) == 0 {
+			return "NOT_FOUND"
+		}
+		return "DELETED"
+	case "sete":
+		// a record that is already expired (for shifte)
+		past := timestamppb.New(time.Now().Add(-time.Hour))
+		v := f[2]
+		resp, err := gw.Set(ctx, &hydrapb.SetRequest{Swamps: []*hydrapb.SwampRequest{{IslandID: 1, SwampName: st.swamp, CreateIfNotExist: true, Overwrite: true,
+			KeyValues: []*hydrapb.KeyValuePair{{Key: f[1], StringVal: &v, ExpiredAt: past}}}}})
+		if err != nil || resp == nil || len(resp.GetSwamps()) != 1 || len(resp.GetSwamps()[0].GetKeysAndStatuses()) != 1 {
+			return "ERR"
+		}
+		return c19Status(resp.GetSwamps()[0].GetKeysAndStatuses()[0].GetStatus())
+	case "shifte":
+		// the claim path of ShiftExpiredTreasures (selection pass + re-validating delete), not ShiftByKeys
+		resp, err := gw.ShiftExpiredTreasures(ctx, &hydrapb.ShiftExpiredTreasuresRequest{IslandID: 1, SwampName: st.swamp, HowMany: 1})
+		if err != nil || resp == nil || len(resp.GetTreasures()) != 1 || resp.GetTreasures()[0].GetKey() != f[1] {
 			return "NOT_FOUND"
 		}
 		return "DELETED"
@@ -850,7 +870,7 @@ func c19Run(in *bufio.Scanner, w *bufio.Writer) {
 			} else {
 				fmt.Fprintln(w, st.unsubscribe(i))
 			}
-		case (st.mode == "seq" || st.mode == "drain") && ((len(f) == 3 && (f[0] == "set" || f[0] == "setm" || f[0] == "inc")) || (len(f) == 2 && (f[0] == "del" || f[0] == "shift" || f[0] == "get")) || (len(f) == 1 && f[0] == "reload")):
+		case (st.mode == "seq" || st.mode == "drain") && ((len(f) == 3 && (f[0] == "set" || f[0] == "setm" || f[0] == "sete" || f[0] == "inc")) || (len(f) == 2 && (f[0] == "del" || f[0] == "shift" || f[0] == "shifte" || f[0] == "get")) || (len(f) == 1 && f[0] == "reload")):
 			var ids []int
 			for i := range st.subs {
 				ids = append(ids, i)
